@@ -103,11 +103,14 @@ func (p Point) PointCross(op Point) Point {
 }
 
 // scaleUpTiny returns v multiplied by a power of two such that its largest
-// component lies in [0.5, 1) if that component is smaller than 2^-400, and v
-// itself otherwise. The multiplication is exact.
+// component lies in [0.5, 1) if that component is smaller than 2^-242, and v
+// itself otherwise. The multiplication is exact. (2^-242 is the smallest
+// magnitude for which the squared norm of a cross product of two such vectors
+// is still a normalized float64, cf. IsNormalizable; Vector.Angle and
+// TurnAngle need that.)
 func scaleUpTiny(v r3.Vector) r3.Vector {
 	m := math.Max(math.Abs(v.X), math.Max(math.Abs(v.Y), math.Abs(v.Z)))
-	if m == 0 || m >= 0x1p-400 {
+	if m == 0 || m >= 0x1p-242 {
 		return v
 	}
 	_, e := math.Frexp(m)
